@@ -6,6 +6,7 @@ CONSTANTS
   MaxUid = 4
   MaxCode = 3
   NFlagSets = 2
+  SyncLit = FALSE
   Kinds = {"LIST", "LISTSTATUS", "STATUS", "GETQUOTA", "GETQUOTAROOT", "GETMETADATA"}
   Greetings = {"PREAUTH"}
   SimDepth = 60
